@@ -228,6 +228,10 @@ EndChecksConn(ln) ==
     Chk(quiet \/ PErrno(sc, hs, prompt), "C13.errno",
         IF ~ResolvedObs \/ sc.loc = "namex" THEN ENOENT ELSE IF NCand(sc) = 0 THEN 0 ELSE ErrOf(sc, NCand(sc)), H.fail),
     Chk(quiet \/ hs.ph # "ready" \/ LocFam(sc) = 0 \/ ln.src = 1, "C13.local", "source is the local address", ln.src),
+    \* the resolver's answer was there before dns.timeout ran out: ENOENT ("resolution fails or exceeds dns.timeout") is not
+    \* the verdict, however late the application makes its next call (the answer is read before the deadline is looked at)
+    Chk(quiet \/ ~MustResolve \/ sc.loc \in {"namex", "name4"} \/ NCand(sc) = 0 \/ H.fail # ENOENT, "C13.errno",
+        <<"resolved: the answer arrived at", H.trel, "dns.timeout", Dto(sc)>>, H.fail),
     \* C11: the TCP options of the connection that came out of the multi-address connect: what xcm_attr_get reports is
     \* what was configured, and it is what the kernel has on the connection (whichever of the track's sockets it is)
     Chk(Len(ln.opt) # 15 \/ \A i \in 1..5 : ln.opt[i] = -1 \/ ln.opt[i] = ln.opt[5 + i], "C11.reported",
